@@ -12,6 +12,10 @@ def hooks_commits():
 
 # id -> dict(engine, category, technique, text, note, design_ref)
 CHECKS = {
+ "C14": dict(engine="h_fmt", category="exploration", design="§3 C14",
+   technique="bounded-exhaustive input enumeration through the real JSON formatter, each record parsed by an independent strict JSON parser and compared with a value model; plus preemption-bounded exhaustive schedule exploration of concurrent record calls",
+   text="Every string of length <= 2 over ASCII + 12 special code points (quotes, backslashes, controls, U+2028/2029, surrogate-range neighbours, astral) in every position (message, string/Debug/Display value, target, span name, span field value, event/span field name), boundary values of every integer width, floats incl. NaN/inf/-0/subnormal, bool, bytes, errors, under the flatten_event/current_span/span_list/display option combinations, in event fields and in span fields recorded at creation and in 1-3 later steps nested 1-3 deep: each record must be one line, one JSON object with unique keys at every level, and every recorded value must appear under the documented type mapping; spans listed root to leaf. 2-3 threads recording different fields on one span are explored over every interleaving up to the preemption bound: every field whose record() returned must appear.",
+   note="Reserved keys (and the log.* / r# prefixes) are excluded as the property says. The strict parser is written for the harness (serde_json is only a second opinion). The type mapping accepted is listed in the evidence assumptions."),
  "C13": dict(engine="h_fmt", category="model_checking", design="§3 C13",
    technique="exhaustive enumeration of writer expressions and formatter configurations + exhaustive abort histories + preemption-bounded exhaustive schedule exploration of concurrent emitters (fresh process per schedule)",
    text="(1) every writer expression up to depth 3 over three recording sinks and {max level, min level, predicate, tee, or_else} is evaluated on 5 levels x 2 targets against its denotation (which sinks get the record, each asked with the record's metadata); (2) every formatter (full, compact, pretty, json) x 8 option bits x span-event subset x nesting depth runs through the real layer: one factory call with the event's metadata and one newline-terminated write per record, one line for full/compact/json, level, in-scope spans in nesting order with their fields, and every event field present; (3) all sequences up to the stated length of {normal event, event whose Debug panics and is caught, event whose Debug emits an event} on a fresh thread; (4) 2-3 threads emitting through one shared sink under the cooperative scheduler with points at the sink and inside field formatting: every write is exactly one whole record of one event.",
